@@ -1067,7 +1067,7 @@ func c12GenCfg(r *core.Rand) c12Cfg {
 }
 
 func runC12(c *core.Ctx) {
-	n := c.N(2500, 12000)
+	n := c.N(2500, 70000)
 	var nontrivial int64
 	c.CasesPar("scenario", n, 2, func(k *core.Case) {
 		r := k.R
